@@ -251,13 +251,14 @@ pub fn graphql_type_annotation_from_type_annotation(
             GraphQLNonNullTypeAnnotation::Named(GraphQLNamedTypeAnnotation(scalar_entity_name.0))
                 .boxed(),
         ),
-        TypeAnnotationDeclaration::Plural(type_annotation) => GraphQLTypeAnnotation::List(
-            GraphQLListTypeAnnotation(
+        // `Plural` is a non-null list (see `from_non_null_type_annotation`)
+        TypeAnnotationDeclaration::Plural(type_annotation) => GraphQLTypeAnnotation::NonNull(
+            GraphQLNonNullTypeAnnotation::List(GraphQLListTypeAnnotation(
                 type_annotation
                     .as_ref()
                     .as_ref()
                     .map(graphql_type_annotation_from_type_annotation),
-            )
+            ))
             .boxed(),
         ),
         TypeAnnotationDeclaration::Union(union_type_annotation) => {
